@@ -28,11 +28,15 @@ Theorem C19_laurent3_sound : forall (K : fld) (a b : list K) c, pzerob b = false
 Proof. exact laurent3_sound. Qed.
 
 (* any pattern table that is sound on coefficient triples realises n/d, and never anything else *)
-Theorem C19_pattern_sound : forall (K : fld) (p : pat), coeff_sound (K:=K) p ->
-  forall n d nt x, pattern_run p (n, d) = Ok (Some nt) -> x <> 0 -> peval d x <> 0 -> Zwf nt x ->
+Section PatSound.
+Variable K : fld.
+Add Field KFp : (fth K).
+Theorem C19_pattern_sound : forall (p : pat), coeff_sound (K:=K) p ->
+  forall (n d : list K) nt x, pattern_run p (n, d) = Ok (Some nt) -> x <> 0 -> peval d x <> 0 -> Zwf nt x ->
   Zev nt x = peval n x / peval d x.
-Proof. intros K p Hp n d nt x H Hx Hd Hw. pose proof (pattern_sound K p Hp n d (Some nt) x H Hx) as R. cbn [realises] in R.
-  Add Field KFp : (fth K). rewrite <- (R Hw). field. exact Hd. Qed.
+Proof. intros p Hp n d nt x H Hx Hd Hw. pose proof (pattern_sound K p Hp n d (Some nt) x H Hx) as R. cbn [realises] in R.
+  rewrite <- (R Hw). field. exact Hd. Qed.
+End PatSound.
 
 (* ladder (Cauer) fold: network impedance = continued-fraction value, for any well-formed spec *)
 Theorem C19_cauer_realises : forall (K : fld) (sp : ladder), ladder_wfb sp = true ->
